@@ -84,6 +84,10 @@ pub fn curated_bodies() -> Vec<String> {
         "<html><body><div><p class=z>q</p><plaintext>rest <b>of</b> the </div> document".into(),
         // end tags that close nothing inside a buffered target (explicitly closed void element, stray </p>)
         "<html><head><link rel=\"a\"></link><title>T</title></head><body><div><br></br>x</p>y<p class=z>q</p></div></body></html>".into(),
+        // raw-text elements written self-closing: the tokenizer reads what follows as their content up to a matching end tag
+        "<html><head><script src=\"x\"/></head><body><div>k</div><p class=k>y</p></body></html>".into(),
+        "<html><head><title/></head><body><div>x</div></body></html>".into(),
+        "<html><body><textarea/><div><p class=k>in</p></div></textarea><div>z</div></body></html>".into(),
     ]
 }
 
